@@ -53,6 +53,18 @@ def run(ctx, chk):
     for cfg in cfgs:
         I, outs = armor.run_unarmor(ctx.facts(cfg))
         natom = ("len", armor.ABUF)
+        # ------------------------------------------------ (0) "yields exactly ceil(6n/8) bytes" for *every*
+        # alphabet string and fill 0..5: no panic site inside the function may be reachable (an
+        # overflowing offset, an index out of range) - the same obligations C01 discharges for this root
+        npanic = 0
+        for site, ob in sorted(I.obl.items(), key=lambda kv: repr(kv[0])):
+            npanic += 1
+            chk.ob(not ob.failures, "C03/no-value/%s/%s" % (ob.kind, site[0].rsplit("::", 1)[-1]),
+                   "unarmor [%s]: %s at %s may fail (%s): for such an input no bytes are produced" % (cfg, ob.kind, ob.loc, (ob.failures[0][1] if ob.failures else "")),
+                   sample={"panic_site": ob.kind, "loc": ob.loc, "status": "unreachable"})
+        for k_, v_ in sorted(I.unknown_ext.items()):
+            chk.ob(False, "C03/no-value/unknown-external/%s" % k_, "unarmor [%s]: call to %s has no contract" % (cfg, k_))
+        chk.ob(npanic >= 15, "C03/no-value/floor/%s/%d" % (cfg, npanic), "only %d panic sites examined inside unarmor [%s]" % (npanic, cfg))
         # ---------------------------------------------------------------- (a) + (c): the loop
         n_back = 0
         res_seen = set()
